@@ -43,7 +43,7 @@ class Prop:
             "canUDPGRO on/off; invalid-offset error returns; differing IPv6 flow labels within a 5-tuple, capacities of 128 KiB, PSH with prepends, stale bytes in front of every packet; plus the 4 regression scenarios of the repaired defects, the scenario of the known finding (UDP order) and 3 fixed batches. "
             "non-trivial = at least one packet coalesced and at least one not; distinct by content hash")
     assumptions = [
-        "theorem scope: buffer capacity <= 65535 + 2*offset (see finding gro-coalesce-past-65535-with-large-cap), offset >= 10, no empty packet",
+        "theorem scope: every batch (any capacities) with offset >= 10 and no empty packet (then no error is returned: C16_gro_no_error); input bytes < 256 for the TCP flow-equivalence part; the UDP order clause is proved over the datagrams udpGRO considers, and holdsb itself for batches whose UDP datagrams all pass its gates (the unrestricted statement is refuted: finding gro-udp-noncandidate-overtaken)",
         "KernelSpec.v (virtio-net header semantics, ip_rcv trim, TSO/USO segmentation, CHECKSUM_PARTIAL completion) is written from the kernel's rules; it is validated only against the repository's own gsoSplit + gVisor checksums in the harness",
         "one's-complement sum of tun/checksum.go is modelled at value level (ocfold); its bit-level mirror is C17's Offload/Checksum.v",
         "numMerged/bufsIndex (uint16) are exact for batches below 65536 packets (device: 128)",
